@@ -57,13 +57,13 @@ def tree_hash(src):
     return h.hexdigest()[:24]
 
 
-def extract(src="/repo", config="R", target_dir=None, use_cache=True, quiet=True):
+def extract(src="/repo", config="R", target_dir=None, use_cache=True, quiet=True, crate="uflow"):
     """Returns (facts_dict, meta)."""
     if config not in CONFIGS:
         raise ExtractError("unknown config " + config)
     th = tree_hash(src)
     os.makedirs(os.path.join(CACHE, "facts"), exist_ok=True)
-    out = os.path.join(CACHE, "facts", "%s-%s.json" % (th, config))
+    out = os.path.join(CACHE, "facts", "%s-%s-%s.json" % (th, config, crate) if crate != "uflow" else "%s-%s.json" % (th, config))
     meta = {"config": config, "tree_hash": th, "src": src, "cached": False}
     if use_cache and os.path.exists(out):
         try:
@@ -79,7 +79,7 @@ def extract(src="/repo", config="R", target_dir=None, use_cache=True, quiet=True
     fpd = os.path.join(tdir, "debug", ".fingerprint")
     if os.path.isdir(fpd):
         for d in os.listdir(fpd):
-            if d.startswith("uflow-"):
+            if d.startswith(crate.replace("_", "-") + "-") or d.startswith(crate + "-"):
                 shutil.rmtree(os.path.join(fpd, d), ignore_errors=True)
     tmp_out = out + ".tmp.%d" % os.getpid()
     if os.path.exists(tmp_out):
@@ -92,6 +92,7 @@ def extract(src="/repo", config="R", target_dir=None, use_cache=True, quiet=True
             "RUSTC_WORKSPACE_WRAPPER": DRIVER,
             "UFLOW_FACTS_OUT": tmp_out,
             "UFLOW_FACTS_CONFIG": config,
+            "UFLOW_FACTS_CRATE": crate,
             "CARGO_TARGET_DIR": tdir,
             "CARGO_NET_OFFLINE": "true",
         }
@@ -112,7 +113,7 @@ def extract(src="/repo", config="R", target_dir=None, use_cache=True, quiet=True
     if not os.path.exists(tmp_out):
         raise ExtractError("fact file was not written (driver skipped?) for %s config %s\n%s" % (src, config, p.stdout[-2000:]))
     facts = json.load(open(tmp_out))
-    if facts.get("config") != config or facts.get("crate") != "uflow":
+    if facts.get("config") != config or facts.get("crate") != crate:
         raise ExtractError("fact file has wrong header")
     os.replace(tmp_out, out)
     meta["facts_file"] = out
